@@ -28,7 +28,7 @@ Leaf(s) == [i \in 1..Len(s) |-> <<s[i]>>]   \* leaves are 1-tuples, inner nodes 
                                             \* integer with a tuple)
 MRoot(s) == Root(Leaf(s))
 
-Faults == {"none", "wrongheader", "procerr", "storeerr", "cancel", "cut", "cbaseerr", "confirmerr"}
+Faults == {"none", "wrongheader", "procerr", "storeerr", "cancel", "cancelend", "cut", "cbaseerr", "confirmerr"}
 
 VARIABLES orig,      \* the block the requested header commits to (distinct leaves)
           relevant,  \* leaves the processor marks relevant
@@ -61,7 +61,9 @@ Init == /\ orig \in Origs
         /\ sent \in Streams(orig)
         /\ count \in {Len(sent) - 1, Len(sent), Len(sent) + 1} \ {0}
         /\ fault \in {[kind |-> "none", at |-> 0], [kind |-> "wrongheader", at |-> 0],
-                      [kind |-> "storeerr", at |-> 0], [kind |-> "cbaseerr", at |-> 0]}
+                      [kind |-> "storeerr", at |-> 0], [kind |-> "cbaseerr", at |-> 0],
+                      \* cancelled after the last transaction was handled and before the stream ends
+                      [kind |-> "cancelend", at |-> 0]}
                      \cup {[kind |-> k, at |-> n] : k \in {"procerr", "cancel"}, n \in 1..Len(sent)}
                      \cup {[kind |-> "cut", at |-> n] : n \in 0..(Len(sent) - 1)}
                      \cup {[kind |-> "confirmerr", at |-> n] : n \in 1..K}
@@ -98,6 +100,7 @@ EndOfStream ==
       /\ pc = "txs" /\ i > Len(Arriving)
       /\ IF Len(Arriving) # count THEN Finish("cancelled")        \* short or long stream: treated as an abort
          ELSE IF MRoot(Arriving) # MRoot(orig) THEN Finish("badroot")
+         ELSE IF fault.kind = "cancelend" THEN Finish("cancelled")   \* the cancel check before anything is confirmed
          ELSE pc' = "coinbase" /\ UNCHANGED result
       /\ UNCHANGED <<i, calls>>
 
